@@ -707,3 +707,364 @@ mod c14_sender {
         run_suite("c14_sender", generate, exec);
     }
 }
+
+// ------------------------------------------------------------------------------------------------
+// C14 (c): UnorderedReceiver over a scripted byte stream.   Request:  c14.recv <sz> <cap> <op,…>
+//   ops: f<hex> = a chunk becomes available (`f` = empty chunk) | e = the stream ends |
+//        r<t>.<i> = poll `recv(i)` with waker t
+//   response item: `<res>|<woken>`; <res> = - (feed/end) | P | =<hex> | E<n>; ends at `panic:<tag>`.
+// ------------------------------------------------------------------------------------------------
+mod c14_receiver {
+    use std::{
+        collections::VecDeque,
+        future::Future,
+        num::NonZeroUsize,
+        pin::{Pin, pin},
+        sync::{Arc, Mutex},
+        task::{Context, Poll, Waker},
+    };
+
+    use futures::Stream;
+    use typenum::{U1, U2, U3, U4, U5, U6, U7, U8};
+
+    use super::{
+        super::{UnorderedReceiver, UnorderedReceiverError},
+        c14_msg::VMsg,
+        c14_wakers::{drain, waker},
+    };
+    use crate::ipa_verif::proto::*;
+
+    #[derive(Default)]
+    struct Source {
+        queue: VecDeque<Vec<u8>>,
+        ended: bool,
+        waker: Option<Waker>,
+    }
+
+    /// The scripted byte stream handed to the receiver.
+    struct Scripted(Arc<Mutex<Source>>);
+
+    impl Stream for Scripted {
+        type Item = Vec<u8>;
+
+        fn poll_next(self: Pin<&mut Self>, cx: &mut Context<'_>) -> Poll<Option<Self::Item>> {
+            let mut s = self.0.lock().unwrap();
+            if let Some(c) = s.queue.pop_front() {
+                Poll::Ready(Some(c))
+            } else if s.ended {
+                Poll::Ready(None)
+            } else {
+                s.waker = Some(cx.waker().clone());
+                Poll::Pending
+            }
+        }
+    }
+
+    fn poll_recv(r: &UnorderedReceiver<Scripted, Vec<u8>>, sz: usize, i: usize, cx: &mut Context<'_>) -> String {
+        macro_rules! go {
+            ($n:ty) => {{
+                let fut = r.recv::<VMsg<$n>, usize>(i);
+                match pin!(fut).poll(cx) {
+                    Poll::Pending => "P".to_string(),
+                    Poll::Ready(Ok(m)) => format!("={}", hex(&m.0)),
+                    Poll::Ready(Err(UnorderedReceiverError::EndOfStream(e))) => format!("E{}", usize::from(e.0)),
+                    Poll::Ready(Err(e)) => format!("err:{e}"),
+                }
+            }};
+        }
+        match sz {
+            1 => go!(U1),
+            2 => go!(U2),
+            3 => go!(U3),
+            4 => go!(U4),
+            5 => go!(U5),
+            6 => go!(U6),
+            7 => go!(U7),
+            8 => go!(U8),
+            n => panic!("harness: unsupported message size {n}"),
+        }
+    }
+
+    pub fn exec(req: &str) -> String {
+        let t: Vec<&str> = req.split(' ').collect();
+        assert_eq!(t[0], "c14.recv");
+        let sz: usize = t[1].parse().unwrap();
+        let Some(cap) = NonZeroUsize::new(t[2].parse().unwrap()) else {
+            return "panic:a capacity of 1 is too small".into(); // 0 is not constructible
+        };
+        let src = Arc::new(Mutex::new(Source::default()));
+        let recv = match guarded(|| UnorderedReceiver::new(Box::pin(Scripted(Arc::clone(&src))), cap)) {
+            Ok(r) => r,
+            Err(p) if p.contains("a capacity of 1 is too small") => return "panic:a capacity of 1 is too small".into(),
+            Err(p) => return p,
+        };
+        let log = Arc::new(Mutex::new(Vec::new()));
+        let mut out: Vec<String> = vec![];
+        if t[3] != "-" {
+            for op in t[3].split(',') {
+                let r = match op.as_bytes()[0] {
+                    b'f' => {
+                        let w = {
+                            let mut s = src.lock().unwrap();
+                            s.queue.push_back(unhex(if op.len() == 1 { "-" } else { &op[1..] }));
+                            s.waker.take()
+                        };
+                        if let Some(w) = w {
+                            w.wake();
+                        }
+                        Ok("-".to_string())
+                    }
+                    b'e' => {
+                        let w = {
+                            let mut s = src.lock().unwrap();
+                            s.ended = true;
+                            s.waker.take()
+                        };
+                        if let Some(w) = w {
+                            w.wake();
+                        }
+                        Ok("-".to_string())
+                    }
+                    b'r' => {
+                        let f: Vec<&str> = op[1..].split('.').collect();
+                        let w = waker(f[0].parse().unwrap(), &log);
+                        let mut cx = Context::from_waker(&w);
+                        guarded(|| poll_recv(&recv, sz, f[1].parse().unwrap(), &mut cx))
+                    }
+                    _ => panic!("harness: bad op {op}"),
+                };
+                match r {
+                    Ok(s) => out.push(format!("{s}|{}", drain(&log))),
+                    Err(p) => {
+                        out.push(if p.contains("Awaiting a read") { "panic:Awaiting a read".into() } else { p });
+                        break;
+                    }
+                }
+            }
+        }
+        if out.is_empty() { "-".into() } else { out.join(";") }
+    }
+
+    // ---- generator -----------------------------------------------------------------------------
+    /// All ways to cut `len` bytes into non-empty chunks.
+    fn compositions(len: usize) -> Vec<Vec<usize>> {
+        if len == 0 {
+            return vec![vec![]];
+        }
+        let mut out = vec![];
+        for first in 1..=len {
+            for mut rest in compositions(len - first) {
+                rest.insert(0, first);
+                out.push(rest);
+            }
+        }
+        out
+    }
+
+    fn permutations(n: usize) -> Vec<Vec<usize>> {
+        fn go(k: usize, cur: &mut Vec<usize>, out: &mut Vec<Vec<usize>>) {
+            if k == cur.len() {
+                out.push(cur.clone());
+                return;
+            }
+            for j in k..cur.len() {
+                cur.swap(k, j);
+                go(k + 1, cur, out);
+                cur.swap(k, j);
+            }
+        }
+        let mut out = vec![];
+        go(0, &mut (0..n).collect(), &mut out);
+        out
+    }
+
+    struct Gen {
+        sz: usize,
+        fed: usize,
+        next: usize,
+        ops: Vec<String>,
+        ctr: usize,
+    }
+
+    impl Gen {
+        fn feed(&mut self, n: usize) {
+            let v: Vec<u8> = (0..n)
+                .map(|_| {
+                    self.ctr += 1;
+                    (self.ctr % 251) as u8
+                })
+                .collect();
+            self.fed += n;
+            self.ops.push(format!("f{}", if v.is_empty() { String::new() } else { hex(&v) }));
+        }
+        /// poll recv(i) with waker 100+i; returns true if it resolves (prediction)
+        fn recv(&mut self, i: usize) -> bool {
+            self.ops.push(format!("r{}.{}", 100 + i, i));
+            if i == self.next && (i + 1) * self.sz <= self.fed {
+                self.next += 1;
+                true
+            } else {
+                false
+            }
+        }
+    }
+
+    /// One schedule: n requests in `perm` order over the chunking `cuts` (+ `extra` trailing bytes),
+    /// `mode` 0: requests first, then chunk by chunk with re-polls; 1: data first; 2: interleaved.
+    fn schedule(sz: usize, cap: usize, n: usize, perm: &[usize], cuts: &[usize], extra: usize, mode: usize, empties: bool) -> String {
+        let mut g = Gen { sz, fed: 0, next: 0, ops: vec![], ctr: 0 };
+        let mut done = vec![false; n];
+        let mut repoll = |g: &mut Gen, done: &mut Vec<bool>| {
+            // poll the unfinished requests in perm order until no more progress
+            loop {
+                let mut progress = false;
+                for &p in perm {
+                    if !done[p] && g.recv(p) {
+                        done[p] = true;
+                        progress = true;
+                    }
+                }
+                if !progress {
+                    break;
+                }
+            }
+        };
+        if mode == 0 {
+            for &p in perm {
+                done[p] = g.recv(p);
+            }
+        }
+        for (k, &c) in cuts.iter().enumerate() {
+            if empties && k % 2 == 0 {
+                g.feed(0);
+            }
+            g.feed(c);
+            match mode {
+                0 => repoll(&mut g, &mut done),
+                2 => {
+                    let p = perm[k % n.max(1)];
+                    if n > 0 && !done[p] {
+                        done[p] = g.recv(p);
+                    }
+                }
+                _ => {}
+            }
+        }
+        if extra > 0 {
+            g.feed(extra);
+        }
+        if n > 0 {
+            repoll(&mut g, &mut done);
+        }
+        g.ops.push("e".into());
+        // after the end: the next unfulfilled request gets EndOfStream, the others stay pending
+        for &p in perm {
+            if !done[p] {
+                g.recv(p);
+            }
+        }
+        g.recv(n); // one past the last
+        format!("c14.recv {sz} {cap} {}", g.ops.join(","))
+    }
+
+    pub fn generate(rng: &mut Rng, thorough: bool) -> Vec<String> {
+        let mut out = vec![];
+        for c in [0, 1, 2] {
+            out.push(format!("c14.recv 1 {c} -"));
+        }
+        for ops in [
+            "r100.0,e,r100.0,r101.1",
+            "e,r100.0",
+            "f01,r100.0,r100.0",
+            "f0102,r101.1,r100.0,r100.0",
+            "r105.5,r104.4,r103.3,r102.2,r101.1,r100.0,f000102030405,r100.0,r101.1,r102.2,r103.3,r104.4,r105.5",
+            "r100.0,r200.0,f01,r100.0",
+            "r101.1,r201.1,f0102,r100.0",
+        ] {
+            for cap in [2, 3, 4] {
+                out.push(format!("c14.recv 1 {cap} {ops}"));
+            }
+        }
+        // all chunkings x all request orders
+        let max_n = if thorough { 5 } else { 4 };
+        for sz in 1..=3usize {
+            for n in 0..=max_n {
+                let total = n * sz;
+                if total > (if thorough { 10 } else { 8 }) {
+                    continue;
+                }
+                let comps = compositions(total);
+                let perms = permutations(n);
+                for (ci, cuts) in comps.iter().enumerate() {
+                    for (pi, perm) in perms.iter().enumerate() {
+                        let k = ci + pi;
+                        // quick: every (chunking, order) pair appears with one (cap, mode); thorough: all modes
+                        let caps: &[usize] = &[2, 3, 4, 8];
+                        if thorough {
+                            for mode in 0..3 {
+                                out.push(schedule(sz, caps[k % 4], n, perm, cuts, k % sz, mode, k % 3 == 0));
+                            }
+                        } else {
+                            out.push(schedule(sz, caps[k % 4], n, perm, cuts, k % sz, k % 3, k % 5 == 0));
+                        }
+                    }
+                }
+            }
+        }
+        // random: long streams, big chunks, far-ahead requests (overflow), shared wakers
+        let nrand = if thorough { 20_000 } else { 2_000 };
+        for _ in 0..nrand {
+            let sz = 1 + rng.usize_below(8);
+            let cap = *rng.pick(&[2usize, 2, 3, 4, 5, 8, 16]);
+            let n = 1 + rng.usize_below(40);
+            let mut g = Gen { sz, fed: 0, next: 0, ops: vec![], ctr: rng.usize_below(251) };
+            let total = n * sz + if rng.below(3) == 0 { rng.usize_below(sz) } else { 0 };
+            let mut steps = 0;
+            let ahead = *rng.pick(&[1usize, 2, 2 * cap + 3, 4 * cap]);
+            while (g.next < n || g.fed < total) && steps < 60 * n {
+                steps += 1;
+                let x = rng.below(100);
+                if x < 35 && g.fed < total {
+                    let c = match rng.below(5) {
+                        0 => 0,
+                        1 => 1,
+                        2 => sz,
+                        3 => 1 + rng.usize_below(3 * sz),
+                        _ => 1 + rng.usize_below(sz),
+                    };
+                    g.feed(c.min(total - g.fed));
+                } else if x < 65 {
+                    let i = g.next;
+                    g.recv(i);
+                } else {
+                    let i = g.next + rng.usize_below(ahead + 1);
+                    if rng.below(20) == 0 {
+                        // a different task (waker) asks for the same index
+                        g.ops.push(format!("r{}.{}", 300 + i, i));
+                        if i == g.next && (i + 1) * sz <= g.fed {
+                            g.next += 1;
+                        }
+                    } else {
+                        g.recv(i);
+                    }
+                }
+            }
+            if rng.bool() {
+                g.ops.push("e".into());
+                let i = g.next;
+                g.recv(i);
+                g.recv(i + 1);
+            } else if rng.below(8) == 0 && g.next > 0 {
+                let i = rng.usize_below(g.next);
+                g.recv(i); // already fulfilled: panic
+            }
+            out.push(format!("c14.recv {sz} {cap} {}", g.ops.join(",")));
+        }
+        out
+    }
+
+    #[test]
+    fn verif_c14_receiver() {
+        run_suite("c14_receiver", generate, exec);
+    }
+}
